@@ -278,8 +278,9 @@ void janet_table_merge_struct(JanetTable *table, const JanetKV *other) {
     janet_table_mergekv(table, other, janet_struct_capacity(other));
 }
 
-/* Convert table to struct */
-const JanetKV *janet_table_to_struct(JanetTable *t) {
+/* Convert table to struct, with an optional struct prototype. The prototype is part of
+ * the struct's identity (hash), so it has to be in place before the struct is finished. */
+static const JanetKV *janet_table_to_struct_proto(JanetTable *t, const JanetKV *proto) {
     JanetKV *st = janet_struct_begin(t->count);
     JanetKV *kv = t->data;
     JanetKV *end = t->data + t->capacity;
@@ -288,7 +289,13 @@ const JanetKV *janet_table_to_struct(JanetTable *t) {
             janet_struct_put(st, kv->key, kv->value);
         kv++;
     }
+    janet_struct_proto(st) = proto;
     return janet_struct_end(st);
+}
+
+/* Convert table to struct */
+const JanetKV *janet_table_to_struct(JanetTable *t) {
+    return janet_table_to_struct_proto(t, NULL);
 }
 
 JanetTable *janet_table_proto_flatten(JanetTable *t) {
@@ -377,9 +384,7 @@ JANET_CORE_FN(cfun_table_tostruct,
     janet_arity(argc, 1, 2);
     JanetTable *t = janet_gettable(argv, 0);
     JanetStruct proto = janet_optstruct(argv, argc, 1, NULL);
-    JanetStruct st = janet_table_to_struct(t);
-    janet_struct_proto(st) = proto;
-    return janet_wrap_struct(st);
+    return janet_wrap_struct(janet_table_to_struct_proto(t, proto));
 }
 
 JANET_CORE_FN(cfun_table_rawget,
